@@ -12,12 +12,12 @@ CHECKS = {
          "+epsilon tokens) equals the reference run semantics; to_deterministic / remove_epsilon_transitions / minimize / copy are extracted "
          "through public observers and compared exactly (product equivalence, shortest distinguishing word) plus shape clauses. "
          "Exploration: nothing is established beyond the generated cases and the enumerated scopes.",
-         "Trusts vlib/ref_fa.py (textbook NFA semantics) and CPython; <=5 states per automaton in the random tier.",
+         "Trusts vlib/ref_fa.py (textbook NFA semantics) and CPython; <=5 states per automaton in most cases, 6-15 states (big / chain / dense-DAG shapes) in about a quarter.",
          "DESIGN.md section 4, C01"),
  "C02": (PBT + "; metamorphic pair generation (language-preserving and language-changing edits); exhaustive pairs of 2-state automata",
          "Ordered pairs of automata (independent, language-preserving edits, minimal language-changing edits, same description in another class): "
          "is_equivalent_to both ways and == must equal the exact reference equivalence; minimize() must be language-equal, all states reachable, "
-         "pairwise distinguishable, of the reference minimal size and isomorphic to the reference minimal DFA (and to each other for equivalent operands). "
+         "pairwise distinguishable, and isomorphic to the minimisation of every equivalent operand. "
          "Exploration.",
          "Trusts vlib/ref_fa.py (equivalence by BFS over subset pairs, Moore refinement for the canonical size).",
          "DESIGN.md section 4, C02"),
@@ -112,7 +112,7 @@ CHECKS = {
          "DESIGN.md section 4, C16"),
  "C17": (PBT + " (reference emptiness by function-table fixpoint, cross-checked per case by bounded brute-force derivation search)",
          "Reduced-form indexed grammars (all four rule kinds, several consumption rules per index/variable, duplicated rules, reserved names S/T): "
-         "is_empty() equals the reference for optim 0..8 x 2-3 rule orders, on a second call, via bool() and after remove_useless_rules(); for <=4-rule "
+         "is_empty() equals the reference for optim 0..8 x 2-3 rule orders, on a second call and after remove_useless_rules(); for <=4-rule "
          "grammars the emptiness of intersection(r) / & equals the emptiness of the reference product grammar. Exploration.",
          "Trusts vlib/ref_ig.py (table fixpoint, not Aho's marking); intersection clause kept tiny because the library's marking is exponential "
          "(rare 20 s watchdog hits are reported as inconclusive).",
@@ -136,7 +136,7 @@ CHECKS = {
          "Automata, PDAs and transducers over JSON-representable values (odd strings, floats, names like starting_q / INITIAL_STACK_HIDDEN, isolated "
          "states, parallel edges, multi-symbol pushes/outputs): from_networkx(to_networkx(x)) has the same states, marking, transitions and start stack "
          "symbol; CFG.from_text(to_text()) has the same productions and bounded language incl. VAR:/TER: markers; RecursiveAutomaton.from_ebnf / "
-         "from_regex give one deterministic box per head, exactly equivalent to the reference union of its right-hand sides. Exploration.",
+         "from_regex give one box per head, exactly equivalent to the reference union of its right-hand sides. Exploration.",
          "Trusts the extraction helpers and vlib/ref_regex.py; values restricted to the property's domain.",
          "DESIGN.md section 4, C20"),
 }
